@@ -35,7 +35,7 @@ fn schema_of(db: &Db, fold_case: bool) -> Schema {
     Schema { tables, fold_case }
 }
 
-const EXTRAS: &[&str] = &[
+pub const EXTRAS: &[&str] = &[
     " | derive {zq1 = math.pi, zq2 = (1.5 | math.round 1), zq3 = (\"ab\" | text.upper)}",
     " | derive {zq4 = @2020-01-01, zq5 = (3 | as float), zq6 = (\"ab\" | text.length)}",
     " | derive {zq7 = (2 | math.pow 3), zq8 = (\"ab\" | text.starts_with \"a\"), zq9 = (\"abc\" | text.extract 1 2)}",
@@ -224,6 +224,11 @@ pub fn check(case: &Case, known: &Known, mode: Mode, hazard: bool) -> Outcome {
         if (bound.ctes > 0 || bound.joins > 0) && *dn != "generic" {
             nontrivial = true;
         }
+        // Postgres (and its relatives here) accept `SELECT FROM t`: the compiler relies on it
+        let mut bound = bound;
+        if matches!(*dn, "postgres" | "glaredb" | "redshift") {
+            bound.errors.retain(|e| e != "empty projection");
+        }
         if *dn == "mssql" && !bound.errors.is_empty()
             && bound.errors.iter().all(|e| e.contains("column true is not in scope") || e.contains("column false is not in scope"))
             && known.is_open("C07-mssql-boolean-literal")
@@ -234,8 +239,9 @@ pub fn check(case: &Case, known: &Known, mode: Mode, hazard: bool) -> Outcome {
         // recorded finding: an inner join whose condition equates all (remaining) columns is
         // rewritten to INTERSECT ALL, also when column pruning / a wildcard makes the two sides
         // of different arity
+        // (the operands' different arities may also leave a later reference unresolved)
         if sql.contains("INTERSECT ALL") && !src.contains("intersect") && !bound.errors.is_empty()
-            && bound.errors.iter().all(|e| e.starts_with("set operation between"))
+            && bound.errors.iter().any(|e| e.starts_with("set operation between"))
             && known.is_open("C07-join-rewritten-to-intersect")
         {
             out.verdict = Verdict::Known("C07-join-rewritten-to-intersect".into(), bound.errors[0].clone());
@@ -254,11 +260,6 @@ pub fn check(case: &Case, known: &Known, mode: Mode, hazard: bool) -> Outcome {
         {
             out.verdict = Verdict::Known("C07-distinct-on-computed-sort-key".into(), bound.errors[0].clone());
             continue;
-        }
-        // Postgres (and its relatives here) accept `SELECT FROM t`: the compiler relies on it
-        let mut bound = bound;
-        if matches!(*dn, "postgres" | "glaredb" | "redshift") {
-            bound.errors.retain(|e| e != "empty projection");
         }
         if mode != Mode::C05 && !bound.errors.is_empty() {
             let o = attribute(
@@ -361,11 +362,12 @@ fn capture_finding(case: &Case, sql: &str, known: &Known) -> Option<Verdict> {
         }
         // helper columns `_expr_N` are not kept distinct from user columns / aliases of that name
         let h = format!("_expr_{n}");
-        let user_h = case.base.db.tables.iter().any(|t| t.cols.iter().any(|c| c.name == h)) || case.source.contains(&format!("{h} ="));
+        let user_h = case.base.db.tables.iter().any(|t| t.name == h || t.cols.iter().any(|c| c.name == h))
+            || case.source.contains(&format!("{h} ="));
         if user_h && sql.contains(&h) && known.is_open("C09-helper-column-name-equals-user-column") {
             return Some(Verdict::Known(
                 "C09-helper-column-name-equals-user-column".into(),
-                format!("user column / alias {h} coexists with generated helper columns"),
+                format!("user table / column / alias {h} coexists with generated helper columns"),
             ));
         }
     }
@@ -413,7 +415,7 @@ pub fn replay_any(check_name: &str, case: &Value, known: &Known, mode: Mode) -> 
     Some(check(&c, known, mode, check_name.starts_with("hazard/")))
 }
 
-const HAZ_C07: &[&str] = &["dup_names", "neg_neg", "sorted_let", "const_group_key", "win_over_win", "dropped_key_join", "wild_let", "take_far_from_sort", "sort_by_windowed", "append_free", "group_take_sort_agg", "multi_take_agg", "open_take", "wild_dup_join"];
+const HAZ_C07: &[&str] = &["dup_names", "sorted_let", "const_group_key", "win_over_win", "dropped_key_join", "wild_let", "take_far_from_sort", "sort_by_windowed", "append_free", "group_take_sort_agg", "multi_take_agg", "open_take", "wild_dup_join"];
 const HAZ_C05: &[&str] = &["dup_names", "dup_select", "shadow", "wild_helpers", "const_fold", "wild_except_twice", "wild_except_sorted"];
 
 pub fn run_c07(ctx: &Ctx) -> i32 {
